@@ -31,6 +31,9 @@ class RootResult:
         self.body = body
         self.outcomes = []      # (kind, state, value)
         self.error = None
+        self.args = None
+        self.st0 = None
+        self.subjects = None
         self.wall = 0.0
         self.blocks = 0
 
@@ -178,6 +181,11 @@ def run_root(E, body, contract=None):
     b0 = E.stats['blocks']
     try:
         st, gs, args = setup(E, body)
+        if rr.args is None:
+            from . import specs
+            rr.args = list(args)
+            rr.subjects = specs.subjects_of(E, st, args)
+            rr.st0 = st.fork()
         if contract in ('not-full', 'no-append'):
             for ms in st.maps.values():
                 if ms.borrowed and not ms.phantom:
